@@ -205,7 +205,97 @@ func (fc *FuncCtx) globalInit(st *State, o *types.Var) Term {
 	fc.oldState.vars[o] = v
 	st.vars[o] = v
 	fc.inputs = append(fc.inputs, InputSym{Name: "global " + o.Name(), Term: v})
+	if fc.w.globalNeverNil(o) {
+		fc.facts = append(fc.facts, not(fc.reg().isNil(v)))
+	}
 	return v
+}
+
+// globalNeverNil: a package variable of the repository of pointer, map, slice, channel, function or interface
+// type whose declaration initialises it with a value that cannot be nil (address of a composite literal, map or
+// slice literal, make, new, or a call whose contract ensures a non-nil result) and that is never assigned and
+// never has its address taken anywhere in the module.
+func (w *World) globalNeverNil(o *types.Var) bool {
+	if w.neverNil == nil {
+		w.neverNil = map[*types.Var]bool{}
+	}
+	if r, ok := w.neverNil[o]; ok {
+		return r
+	}
+	w.neverNil[o] = false
+	switch o.Type().Underlying().(type) {
+	case *types.Pointer, *types.Map, *types.Slice, *types.Chan, *types.Interface, *types.Signature:
+	default:
+		return false
+	}
+	if o.Pkg() == nil {
+		return false
+	}
+	pkg := w.Pkgs[o.Pkg().Path()]
+	if pkg == nil {
+		return false
+	}
+	var init ast.Expr
+	for _, f := range pkg.Syntax {
+		for _, d := range f.Decls {
+			gd, ok := d.(*ast.GenDecl)
+			if !ok || gd.Tok != token.VAR {
+				continue
+			}
+			for _, sp := range gd.Specs {
+				vs := sp.(*ast.ValueSpec)
+				if len(vs.Values) != len(vs.Names) {
+					continue
+				}
+				for i, n := range vs.Names {
+					if pkg.TypesInfo.Defs[n] == o {
+						init = vs.Values[i]
+					}
+				}
+			}
+		}
+	}
+	if init == nil {
+		return false
+	}
+	nonNil := false
+	switch x := unparen(init).(type) {
+	case *ast.UnaryExpr:
+		if _, ok := unparen(x.X).(*ast.CompositeLit); ok && x.Op == token.AND {
+			nonNil = true
+		}
+	case *ast.CompositeLit:
+		nonNil = true
+	case *ast.FuncLit:
+		nonNil = true
+	case *ast.CallExpr:
+		if id, ok := unparen(x.Fun).(*ast.Ident); ok {
+			if b, ok := pkg.TypesInfo.ObjectOf(id).(*types.Builtin); ok && (b.Name() == "make" || b.Name() == "new") {
+				nonNil = true
+			}
+		}
+		var fn *types.Func
+		switch f := unparen(x.Fun).(type) {
+		case *ast.Ident:
+			fn, _ = pkg.TypesInfo.ObjectOf(f).(*types.Func)
+		case *ast.SelectorExpr:
+			fn, _ = pkg.TypesInfo.ObjectOf(f.Sel).(*types.Func)
+		}
+		if fn != nil {
+			if c := w.Contracts[fn.FullName()]; c != nil && c.Trusted {
+				for _, e := range c.Ensures {
+					if strings.ReplaceAll(e.Text, " ", "") == "result!=nil" {
+						nonNil = true
+					}
+				}
+			}
+		}
+	}
+	if !nonNil || w.assignedSomewhere(o) != "" {
+		return false
+	}
+	w.neverNil[o] = true
+	return true
 }
 
 // derefChecked dereferences a pointer value with a nil obligation.
